@@ -331,6 +331,12 @@ def gen_auth(rng, n_records, sweep_stride=1, kts=KT_ALL):
             tam.append(("sig_der", recspec(rec, sig={"der": True})))
             tam.append(("sig_der_highs", recspec(rec, sig={"tweak": "highs", "der": True})))
         tam.append(("random_sig", recspec(rec, sig={"raw": rand_bytes(rng, 64)})))
+        # a value replaced by one a lenient reader might treat as the same (the identity scheme in another case), not re-signed
+        idalt = [[k, (enc_str(B("V4")) if bytes(k) == b"id" else v)] for k, v in rec["pairs"]]
+        tam.append(("id_case_flipped_unsigned", {"rec": {"seq": rec["seq"], "pairs": idalt, "sig": {"by": rec["by"], "over": items_of(rec)}}}))
+        # the signature made over the same items under another framing of the list (long-form / two-byte / string header, no header)
+        for fr in ("long", "long2", "str", "bare"):
+            tam.append(("signed_over_other_framing_" + fr, recspec(rec, sig={"frame": fr})))
         # signatures that HAVE a zero byte at the start of r / of s / at the end (found by counting a filler pair up
         # until the genuine signature has it): valid as they are; with that byte dropped, or with a zero byte added
         # in front or behind, they are 63 / 65 bytes and not signatures
@@ -357,6 +363,22 @@ def gen_auth(rng, n_records, sweep_stride=1, kts=KT_ALL):
                           "input": {"mut": {"base": base, "edits": [
                               {"k": rng.choice(["set", "ins"]), "i": rng.randrange(300), "b": rng.randrange(256)}]}}})
         out.append({"sid": sid(), "steps": steps})
+    # signed content of every length around the short / long list-header boundary (53..58 bytes), both schemes: valid as
+    # they are; signed over a non-canonically framed list they are not
+    steps = []
+    for by in (SECP_SIGNERS[0], SECP_SIGNERS[-1], ED_SIGNERS[0]):
+        basep = sorted([[B("id"), enc_str(B("v4"))], [B(pk_key(by)), enc_str(KEYS[by]["pk"])]], key=lambda p: bytes(p[0]))
+        for target in range(52, 60):
+            for n in range(0, 12):
+                ps = sorted(basep + [[B("a"), enc_str([0x81] * n)]], key=lambda p: bytes(p[0])) if n else basep
+                clen = len(enc_str([1])) + sum(len(enc_str(k)) + len(v) for k, v in ps)
+                if clen == target:
+                    r0 = {"seq": [1], "pairs": ps, "by": by}
+                    steps.append({"op": "decode", "kts": kts, "input": recspec(r0), "tag": "valid"})
+                    for fr in ("long", "long2", "str"):
+                        steps.append({"op": "decode", "kts": kts, "input": recspec(r0, sig={"frame": fr}), "tag": "signed_over_other_framing_" + fr})
+                    break
+    out.append({"sid": sid(), "steps": steps})
     # unstructured bytes
     steps = []
     for _ in range(max(20, n_records * 4)):
@@ -633,6 +655,27 @@ def gen_prefix(rng, n, kts=KT_ALL):
             # trailing garbage after a list / a stream
             steps.append({"op": "decode_list", "kt": kt, "input": {"concat": [{"list": specs[:2]}, {"raw": rand_bytes(rng, 5)}]}, "tag": "list_suffix"})
         out.append({"sid": sid(), "steps": steps})
+    # every kind of refused input directly followed, on the same thread, by a valid record alone / with a suffix / in a
+    # stream / in a list: what was decoded before must not matter (scratch buffers, hints and caches that an early
+    # return leaves dirty)
+    rec = rand_record(rng)
+    good = recspec(rand_record(rng))
+    steps = []
+    bads = [m for m in struct_mutations(rng, rec) if m[0] not in ("valid", "port_ok_boundary", "seq_8_bytes_max", "seq_empty", "val_nested_ok", "size_299", "size_300", "empty_input")]
+    noid = {"rec": {"seq": rec["seq"], "pairs": [p for p in rec["pairs"] if bytes(p[0]) != b"id"], "sig": {"by": rec["by"]}}}
+    for j, (tag, bad) in enumerate([("id_missing_resigned", noid)] + bads):
+        steps.append({"op": "decode", "kts": kts, "input": bad, "tag": "poison_" + tag})
+        nxt = j % 4
+        if nxt == 0:
+            steps.append({"op": "decode", "kts": kts, "input": {"concat": [good, {"raw": [0] * 3}]}, "tag": "valid_after_refused"})
+        elif nxt == 1:
+            steps.append({"op": "decode", "kts": kts, "input": good, "tag": "valid_after_refused"})
+        else:
+            kt = kts[j % len(kts)]
+            okg = recspec(rand_record(rng, signer=[x for x in SECP_SIGNERS + ED_SIGNERS if scheme_ok(kt, x)][0]))
+            steps.append({"op": "decode", "kts": [kt], "input": bad, "tag": "poison_" + tag})
+            steps.append({"op": "decode_stream" if nxt == 2 else "decode_list", "kt": kt, "input": {"concat": [okg, okg]} if nxt == 2 else {"list": [okg, okg]}, "tag": "after_refused"})
+    out.append({"sid": sid(), "steps": steps})
     return out
 
 
@@ -1170,7 +1213,7 @@ def gen_typed(rng, ports, routes=("builder", "setter", "socket", "decode"), keys
                         steps.append({"op": "call", "h": "r", "m": m, "args": {"ip": ip, "port": p}, "signer": own, "obs": "typed"})
                     else:
                         pairs = sorted([[B("id"), enc_str(B("v4"))], [B(pk_key(own)), enc_str(KEYS[own]["pk"])], [B(key), enc_uint(p)]], key=lambda x: bytes(x[0]))
-                        steps.append({"op": "decode", "h": "d", "kt": kt, "obs": "typed", "input": {"rec": {"seq": [1], "pairs": pairs, "sig": {"by": own}}}, "tag": "port_decode"})
+                        steps.append({"op": "decode", "h": "d", "kt": kt, "obs": "typed", "input": {"rec": {"seq": [1], "pairs": pairs, "sig": {"by": own}}}, "tag": "typed_decode"})
                     if len(steps) >= 2000:
                         out.append({"sid": sid(), "steps": steps})
                         steps = [{"op": "build", "h": "r", "kt": kt, "signer": own, "calls": []}]
@@ -1187,7 +1230,7 @@ def gen_typed(rng, ports, routes=("builder", "setter", "socket", "decode"), keys
                 v = enc_str(rand_ip(rng, 4)) if k == "ip" else enc_str(rand_ip(rng, 16)) if k == "ip6" else port_raw(rng)
                 pairs.append([B(k), v])
         pairs.sort(key=lambda x: bytes(x[0]))
-        steps.append({"op": "decode", "h": "d", "kt": kt, "obs": "full", "input": {"rec": {"seq": rand_seq(rng), "pairs": pairs, "sig": {"by": own}}}, "tag": "presence_%d" % mask})
+        steps.append({"op": "decode", "h": "d", "kt": kt, "obs": "full", "input": {"rec": {"seq": rand_seq(rng), "pairs": pairs, "sig": {"by": own}}}, "tag": "typed_decode"})
     out.append({"sid": sid(), "steps": steps})
     # addresses, client strings, arbitrary raw values under client / custom keys
     steps = [{"op": "build", "h": "r", "kt": kt, "signer": own, "calls": []}]
@@ -1197,6 +1240,14 @@ def gen_typed(rng, ports, routes=("builder", "setter", "socket", "decode"), keys
             [0xfe, 0x80] + [0] * 13 + [1], [0xff, 2] + [0] * 13 + [1], [0, 0, 0, 1], [0, 1, 2, 3], [0, 0, 0, 0], [224, 0, 0, 1]]
     for _ in range(extra):
         ips.append(rand_ip(rng, rng.choice([4, 16])))
+    for ip in ips[:10]:
+        # the same socket written through the UDP setter, the TCP setter, and both once more (a setter must not take the
+        # other transport's entry for its own)
+        port = rng.randrange(1, 65536)
+        for m in ("set_udp_socket", "set_tcp_socket", "set_tcp_socket", "set_udp_socket"):
+            steps.append({"op": "call", "h": "r", "m": m, "args": {"ip": ip, "port": port}, "signer": own, "obs": "typed"})
+        steps.append({"op": "call", "h": "r", "m": "remove_tcp_socket" if len(ip) == 4 else "remove_tcp6_socket", "args": {}, "signer": own, "obs": "typed"})
+        steps.append({"op": "call", "h": "r", "m": "set_tcp_socket", "args": {"ip": ip, "port": port}, "signer": own, "obs": "typed"})
     for ip in ips:
         steps.append({"op": "call", "h": "r", "m": "set_ip", "args": {"ip": ip}, "signer": own, "obs": "typed"})
         steps.append({"op": "call", "h": "r", "m": rng.choice(["set_udp_socket", "set_tcp_socket"]), "args": {"ip": rand_ip(rng, len(ip)), "port": rng.randrange(65536)}, "signer": own, "obs": "typed"})
@@ -1348,6 +1399,10 @@ def gen_fail(rng, obs="full", part=None):
         ("set_client_info", lambda rng: {"name": B("n"), "version": B("v"), "build": [[]]}),
         ("set_client_info", lambda rng: {"name": B("a-client-name-that-is-far-too-long-to-fit-" * 6), "version": B("v1"), "build": []}),
         ("set_ip", lambda rng: {"ip": [0x20, 1] + [0] * 13 + [7]}),
+        ("insert", lambda rng: {"key": B("ip"), "val": {"ty": "bytes", "v": [0x20, 1] + [0] * 13 + [7]}}),      # 16 bytes under ip
+        ("insert", lambda rng: {"key": B("ip6"), "val": {"ty": "bytes", "v": [10, 0, 0, 3]}}),                   # 4 bytes under ip6
+        ("insert_raw_rlp", lambda rng: {"key": B("ip"), "raw": enc_str([0] * 16)}),
+        ("remove_insert", lambda rng: {"remove": [], "insert": [[B("ip6"), [1, 2, 3, 4]]]}),
     ]
     combos = []
     for kt, own in [("k256", "k1"), ("libsecp", "k2"), ("ed", "e1"), ("comb", "k1"), ("comb", "e1"), ("wk256", "k1"), ("wed", "e2"), ("wcomb", "k4"), ("wcomb", "e1")]:
@@ -1559,7 +1614,8 @@ def gen_size_exact(rng, kts=("k256", "libsecp", "ed", "comb"), targets=range(296
     sid = Sid("sizex")
     seqs = seqs or [[1], [127], [255], [255, 255], [255, 255, 255], [255] * 7]
     calls = [
-        ("set_tcp4", {"port": 30303}), ("set_udp6", {"port": 0}), ("set_ip", {"ip": [10, 0, 0, 1]}), ("set_ip", {"ip": [0] * 15 + [1]}),
+        ("set_tcp4", {"port": 30303}), ("set_udp6", {"port": 0}), ("set_tcp6", {"port": 65535}), ("set_udp4", {"port": 127}),
+        ("set_ip", {"ip": [10, 0, 0, 1]}), ("set_ip", {"ip": [0] * 15 + [1]}),
         ("insert", {"key": B("y"), "val": {"ty": "bytes", "v": [5] * 9}}), ("insert_raw_rlp", {"key": B("yy"), "raw": enc_list([enc_str([1]), enc_str([])])}),
         ("set_udp_socket", {"ip": [10, 0, 0, 2], "port": 9000}), ("set_udp_socket", {"ip": [0xfe, 0x80] + [0] * 13 + [2], "port": 9000}),
         ("set_tcp_socket", {"ip": [10, 0, 0, 2], "port": 80}), ("set_tcp_socket", {"ip": [0x20, 1] + [0] * 13 + [3], "port": 65535}),
@@ -1592,7 +1648,7 @@ def gen_size_exact(rng, kts=("k256", "libsecp", "ed", "comb"), targets=range(296
                             break
         # always: the builder aimed at every result size around the limit (filler chosen so that the built record -- id,
         # the signer's key, an address, the filler -- has exactly the target size), also built twice from one builder
-        for sq in ([1], [127], [255, 255]):
+        for sq in ([1], [127], [255, 255], [1, 0x8b, 0xd0, 0x38, 0x44, 0x00], [255] * 8):
             for target in targets:
                 for n in range(100, 260):
                     ps = sorted(small + [[B("ip"), enc_str([10, 0, 0, 1])], [B("zpad"), enc_str([0xCC] * n)]], key=lambda p: bytes(p[0]))
@@ -1621,8 +1677,10 @@ def gen_size_exact(rng, kts=("k256", "libsecp", "ed", "comb"), targets=range(296
                         steps.append({"op": "call", "h": "r", "m": m, "args": a2, "signer": own, "obs": obs})
                         break
                 continue
+            # every third combination carries a key of 56+ bytes (two-byte string header for a KEY)
+            base2 = base + ([[B("k" * 57), enc_str([1])]] if (len(steps) // 2) % 3 == 1 else [])
             for n in range(0, 230):
-                pre = sorted(base + [[B("zpad"), enc_str([0xAA] * n)]], key=lambda p: bytes(p[0]))
+                pre = sorted(base2 + [[B("zpad"), enc_str([0xAA] * n)]], key=lambda p: bytes(p[0]))
                 if rec_len(sq, pre) > 300:
                     break
                 post, nseq = _apply_py(pre, sq, m, a)
